@@ -248,8 +248,21 @@ fn c17_check(case: &Case, ctx: &mut Ctx) -> Result<(), String> {
             let mut probe = a[i].clone();
             probe.extend_from_slice(&a[i + 1]);
             probe.extend_from_slice(&case.patterns[0]);
+            // top-level engines: all three builds come from ONE builder object
+            // (a builder must not carry anything over from one build to the next)
+            let shared_builder = if case.cfg.engine.is_top() { Some(crate::engine::top_builder(&case.cfg)) } else { None };
             for (name, list) in [("first", &a), ("second", &b), ("first again", &a)] {
-                let s = Searcher::build(&case.cfg, list)?;
+                let s = match &shared_builder {
+                    Some(bld) => {
+                        let r = guard(|| {
+                            let _s = crate::engine::SuspendBudget::new();
+                            bld.build(list.iter())
+                        })
+                        .map_err(|p| format!("back-to-back builds: build panicked: {}", p))?;
+                        Searcher::Top(r.map_err(|e| format!("back-to-back builds: build returned Err: {}", e))?)
+                    }
+                    None => Searcher::build(&case.cfg, list)?,
+                };
                 if s.patterns_len() != list.len() || (s.max_pattern_len() != list.iter().map(|p| p.len()).max().unwrap_or(0)) {
                     return Err(format!("back-to-back builds ({} list, separator {:#04x}): metadata does not match the list that was built", name, t));
                 }
@@ -554,7 +567,7 @@ fn c17_extra(tier: Tier, _seed: u64, ctx: &mut Ctx) -> Result<bool, crate::runne
 pub const C17: PropDef = PropDef {
     id: "C17",
     rule: "generated histories of 2..10 operations (find, earliest, find_iter, overlapping steps, is_match, replace_all_bytes, stream search, packed find_iter, a replace call issued from inside another replace call's closure, replace_all_with that stops at the second match) over {searcher, clone, clone of clone, a second searcher with longer patterns derived from the same list, its clone} x generated haystacks/spans/anchoring (stream searches use 1..4-byte reads at the default buffer capacity), all engines and match kinds. \
-Before the history, two pattern lists with equal count and equal concatenation (a separator-like byte 0xFF/0x00/','/newline moved across one pattern boundary) are built back to back and each must behave like the list it was built from. Oracle: (1) sequential: every value-defined result equals the reference model; (2) history independence: every operation re-run later, in reverse order and on each handle of the same searcher, returns the identical value; \
+Before the history, two pattern lists with equal count and equal concatenation (a separator-like byte 0xFF/0x00/','/newline moved across one pattern boundary) are built back to back (for top-level engines from one and the same AhoCorasickBuilder object) and each must behave like the list it was built from. Oracle: (1) sequential: every value-defined result equals the reference model; (2) history independence: every operation re-run later, in reverse order and on each handle of the same searcher, returns the identical value; \
 (3) concurrency: 2..8 threads (released together by a barrier) run rotated slices of the history three times on the shared searchers and clones, every result must equal the sequential one; an in-flight counter measures whether searches actually overlapped. \
 A contention sub-run hammers one shared searcher per (5 engines x 3 match kinds x 10 adversarial deep-failure-chain pattern sets incl. one whose states carry 40 matches; overlapping stepping for the standard kind, the iterator otherwise) from 8 barrier-released threads, each repeating its own chain-riding search 1500 (thorough 6000) times against the sequential model result. A keyword scan of /repo/src for interior mutability outside the verification hooks is recorded as context only (it never produces a violation). \
 Non-trivial = at least two searches were in flight at the same time and the history uses at least two different handles. Distinct = distinct case fingerprint.",
